@@ -56,10 +56,10 @@ func (c *Ctx) coreIface() *types.Interface {
 func checkC05(c *Ctx) {
 	c.Rule("R5.1", "Check discipline of every zapcore.Core implementation according to its class", 8)
 	c.Rule("R5.2", "every Enabled pre-check guarding a logging call in a front end is legal (level < DPanic) and asks the live core", 9)
-	c.Rule("R5.3", "reported level: Level() = LevelOf(wrapped); tee min-fold seeded with InvalidLevel; LevelOf scans the whole range ascending", 10)
-	c.Rule("R5.4", "NewIncreaseLevelCore validates over the whole level range and builds the core only on success", 3)
-	c.Rule("R5.5", "CheckedEntry.Write in front ends only under ce != nil", 12)
-	c.Rule("R5.6", "AtomicLevel: a single atomic, read afresh by Enabled, written only by Store", 4)
+	c.Rule("R5.3", "reported level: Level() = LevelOf(wrapped); tee min-fold seeded with InvalidLevel; LevelOf scans the whole range ascending", 9)
+	c.Rule("R5.4", "NewIncreaseLevelCore validates over the whole level range and builds the core only on success", 2)
+	c.Rule("R5.5", "CheckedEntry.Write in front ends only under ce != nil", 8)
+	c.Rule("R5.6", "AtomicLevel: a single atomic, read afresh by Enabled, written only by Store", 3)
 
 	iface := c.coreIface()
 	if !c.Anchor("R5.1", "zapcore.Core", iface != nil) {
